@@ -3,6 +3,7 @@
 //! It contains no oracle; TLC decides.
 
 mod actor;
+mod api;
 mod codec;
 mod docs;
 mod heads;
@@ -129,6 +130,11 @@ fn main() {
             let mut rng = Rng::new(seed);
             let scheds = args.kv.get("schedules").map(|p| read_schedules(p)).unwrap_or_default();
             swarm::run(&w, seed, &mut rng, scheds, args.num("n", 30) as usize, &dir, &mut trace, &mut sum);
+        }
+        "api" => {
+            let w = World::new(seed, 3, 3);
+            let mut rng = Rng::new(seed);
+            api::run(&w, seed, &mut rng, args.num("n", 20) as usize, &dir, &mut trace, &mut sum);
         }
         "protect" => {
             let w = World::new(seed, 3, 3);
